@@ -180,6 +180,9 @@ def unit_pair(P):
                     rng.add(tm.mk_le(q[1], q[0]).id)
                     rng.add(tm.mk_lt(q[0], q[2]).id)
                 extra = [g for g in e.guards if g.id not in rng and not _is_range_guard(g, e.qvars)]
+                rest = [g for g in e.guards if g not in extra]
+                # a guard that follows from the loop ranges skips nothing (e.g. `nw != 0` when the store is inside a loop of nw iterations)
+                extra = [g for g in extra if intarith.check_sat_int(list(hyps) + relevant(oblig.side_hyps(s), e.guards) + rest + [tm.mk_not(g)], 5.0)[0] != "unsat"]
                 ctx.holds("%s overwrites %s[%s] unconditionally (no stale buffer content can survive)" % (who, e.arr.name, tm.show(e.idx, 40)), not extra,
                           "the overwriting store is skipped when %s fails" % [tm.show(g, 60) for g in extra], fq, replay=replay_pair(P))
         ctx.canary_valid("%s canary" % tag, list(hyps), tm.mk_eq(Ff[0].out_idx, Ff[0].out_idx + 1) if Ff else tm.FALSE)
